@@ -282,6 +282,8 @@ pub struct ObsSlot {
     pub pinned: bool,
     pub smuggled: Option<(usize, bool, u32, u8)>,
     pub state_unsub_after_gone: bool,
+    /// the observed node is a top-level map over the smuggled node
+    pub over: bool,
 }
 
 #[derive(Clone, Copy, Debug, PartialEq, Eq)]
@@ -293,6 +295,7 @@ pub enum WKind {
     ReplaceWith,
 }
 pub const WKINDS: [WKind; 5] = [WKind::Set, WKind::Update, WKind::Modify, WKind::Replace, WKind::ReplaceWith];
+const FN_OVER: u16 = 103;
 const FN_UPDATE: u16 = 100;
 const FN_MODIFY: u16 = 101;
 const FN_REPLACE_WITH: u16 = 102;
@@ -406,6 +409,8 @@ pub enum Action {
     Unsubscribe(usize, usize),
     UnsubscribeForeign(usize, usize),
     ObserveSmuggled(usize),
+    /// build `node.map(f)` at top level over a node smuggled out of a bind closure and observe it
+    ObserveMapOverSmuggled(usize),
     /// observe a node with an observer that is never dropped afterwards
     Pin(usize),
     StateUnsubscribe(usize, usize),
@@ -428,6 +433,7 @@ pub struct Ops {
     pub state_unsubscribe: bool,
     pub observe_smuggled: bool,
     pub subscribe_smuggled_only: bool,
+    pub map_over_smuggled: bool,
     pub write_same: bool,
     /// the five write operations instead of plain set
     pub write_kinds: bool,
@@ -514,6 +520,7 @@ pub struct World {
     pub crash_armed_once: bool,
     pub armed_sub_once: bool,
     pub armed_drop_once: bool,
+    pub over_nodes: Vec<Incr<SV>>,
     pub poisoned: bool,
     /// strong-count probes of every node built from a spec
     pub weaks: Vec<Box<dyn Fn() -> usize>>,
@@ -606,6 +613,7 @@ impl World {
             crash_armed_once: false,
             armed_sub_once: false,
             armed_drop_once: false,
+            over_nodes: vec![],
             poisoned: false,
             weaks: vec![],
             weak_state,
@@ -947,6 +955,7 @@ impl World {
         self.vars.clear();
         self.pvars.clear();
         self.sh.smuggled.borrow_mut().clear();
+        self.over_nodes.clear();
         self.sh.armed.borrow_mut().clear();
         // one stabilise lets the engine release what it defers (dead vars, unlinked observers)
         if let Some(st) = self.state.as_ref() {
@@ -1112,7 +1121,7 @@ impl World {
         }
         // keep them alive until the world is dropped (their drop is part of the final teardown)
         for (n, o) in late {
-            self.obs.borrow_mut().push(ObsSlot { handles: vec![o], node: n, st: OSt::Dead, last: None, subs: vec![], created_round: round, pinned: false, smuggled: None, state_unsub_after_gone: false });
+            self.obs.borrow_mut().push(ObsSlot { handles: vec![o], node: n, st: OSt::Dead, last: None, subs: vec![], created_round: round, pinned: false, smuggled: None, state_unsub_after_gone: false, over: false });
         }
         let _ = log_start;
     }
@@ -1679,6 +1688,9 @@ impl World {
             if o.observe_smuggled && all_pinned {
                 for k in 0..self.sh.smuggled.borrow().len().min(3) {
                     v.push(Action::ObserveSmuggled(k));
+                    if o.map_over_smuggled {
+                        v.push(Action::ObserveMapOverSmuggled(k));
+                    }
                 }
             }
         }
@@ -1745,7 +1757,7 @@ impl World {
     }
 
     fn push_observer(&mut self, o: Observer<SV>, node: usize, pinned: bool, smuggled: Option<(usize, bool, u32, u8)>) {
-        self.obs.borrow_mut().push(ObsSlot { handles: vec![o], node, st: OSt::Created, last: None, subs: vec![], created_round: self.sh.round.get(), pinned, smuggled, state_unsub_after_gone: false });
+        self.obs.borrow_mut().push(ObsSlot { handles: vec![o], node, st: OSt::Created, last: None, subs: vec![], created_round: self.sh.round.get(), pinned, smuggled, state_unsub_after_gone: false, over: false });
         self.dirty = true;
     }
 
@@ -1868,6 +1880,15 @@ impl World {
                 let o = h.observe();
                 cover("observer-on-scope-created-node");
                 self.push_observer(o, b, false, Some((b, br, g, pos)));
+            }
+            Action::ObserveMapOverSmuggled(k) => {
+                let (b, br, g, pos, h) = self.sh.smuggled.borrow()[*k].clone();
+                let m = h.map(|x| app(FN_OVER, &[x.clone()]));
+                let o = m.observe();
+                self.over_nodes.push(m);
+                cover("map-built-over-scope-created-node");
+                self.push_observer(o, b, false, Some((b, br, g, pos)));
+                self.obs.borrow_mut().last_mut().unwrap().over = true;
             }
             Action::DropObs(k) => {
                 let mut obs = self.obs.borrow_mut();
@@ -2106,9 +2127,9 @@ impl World {
         let n_slots = self.obs.borrow().len();
         let updates: Vec<UpdLog> = self.sh.updates.borrow()[upd_start..].to_vec();
         for k in 0..n_slots {
-            let (st, node, smuggled, prev) = {
+            let (st, node, smuggled, prev, over) = {
                 let o = self.obs.borrow();
-                (o[k].st, o[k].node, o[k].smuggled, o[k].last.clone())
+                (o[k].st, o[k].node, o[k].smuggled, o[k].last.clone(), o[k].over)
             };
             if st != OSt::InUse {
                 continue;
@@ -2119,7 +2140,12 @@ impl World {
             let want: Option<SV> = if invalid {
                 None
             } else if let Some((b, br, _, pos)) = smuggled {
-                self.eval_smuggled(b, br, pos, &mut memo)
+                let v = self.eval_smuggled(b, br, pos, &mut memo);
+                if over {
+                    v.map(|x| app(FN_OVER, &[x]))
+                } else {
+                    v
+                }
             } else if self.cfg.mon.c01 || self.cfg.mon.c09 || self.cfg.mon.c03 {
                 Some(self.eval(node, &mut memo))
             } else {
